@@ -15,49 +15,52 @@ Close Scope string_scope.
 Open Scope list_scope.
 Open Scope N_scope.
 
-Notation hist := (run_hist kload ksupported).
+(** [supp] is ANY Supported() that satisfies its specification (C09 proves that the one of the current tree does):
+    the statements below are about LoadFilter, whatever probes are interleaved with the loads. *)
+Notation probe_ok supp := (supp_spec kstate do_seccomp supp).
+Notation hist supp := (run_hist kload supp).
 
 (** Thread-sync requested and nil returned, after ANY history [pre]: the new filter (an id no thread had) is on
     top of the stack of every thread existing at that moment, and in the stack of every thread existing after
     ANY continuation [post] - whichever threads spawn threads, block, wake or exit, and whatever is loaded
     later. A thread with the filter in its stack has every later system call filtered by it. *)
-Theorem C10_tsync_covers_all : forall st0 pre tid pinned sched f post,
+Theorem C10_tsync_covers_all : forall supp, probe_ok supp -> forall st0 pre tid pinned sched f post,
   wf st0 -> Forall op_ok pre -> wf_filt f -> Forall op_ok post ->
   has_flag (f_flag f) FLAG_TSYNC = true ->
-  snd (kload (mk_world (hist st0 pre) tid pinned sched) f) = LNil ->
+  snd (kload (mk_world (hist supp st0 pre) tid pinned sched) f) = LNil ->
   exists fid,
-    (forall th, In th (ks_threads (hist st0 pre)) -> ~ In fid (t_filters th)) /\
-    all_have_top (hist st0 (pre ++ [HLoad tid pinned sched f])) fid /\
-    covered fid (hist st0 (pre ++ HLoad tid pinned sched f :: post)).
-Proof. exact (tsync_covers_all kload ksupported kload_spec ksupported_spec). Qed.
+    (forall th, In th (ks_threads (hist supp st0 pre)) -> ~ In fid (t_filters th)) /\
+    all_have_top (hist supp st0 (pre ++ [HLoad tid pinned sched f])) fid /\
+    covered fid (hist supp st0 (pre ++ HLoad tid pinned sched f :: post)).
+Proof. exact (fun supp Hs => tsync_covers_all kload supp kload_spec Hs). Qed.
 Print Assumptions C10_tsync_covers_all.
 
 (** The invariant behind it: once every thread has a filter, every operation preserves that. *)
-Theorem C10_covered_preserved : forall fid ops st, Forall op_ok ops -> covered fid st -> covered fid (hist st ops).
-Proof. exact (covered_preserved kload ksupported kload_spec ksupported_spec). Qed.
+Theorem C10_covered_preserved : forall supp, probe_ok supp -> forall fid ops st, Forall op_ok ops -> covered fid st -> covered fid (hist supp st ops).
+Proof. exact (fun supp Hs => covered_preserved kload supp kload_spec Hs). Qed.
 Print Assumptions C10_covered_preserved.
 
 (** Without thread-sync the other threads are left exactly as they were (same threads, each one unchanged). *)
-Theorem C10_no_tsync_untouched : forall st0 pre tid pinned sched f,
+Theorem C10_no_tsync_untouched : forall supp st0 pre tid pinned sched f,
   wf_filt f -> has_flag (f_flag f) FLAG_TSYNC = false ->
-  let w := mk_world (hist st0 pre) tid pinned sched in
+  let w := mk_world (hist supp st0 pre) tid pinned sched in
   exists j, let t := thread_at kstate w j in
-  let st' := hist st0 (pre ++ [HLoad tid pinned sched f]) in
-  tids st' = tids (hist st0 pre) /\
-  (forall th', In th' (ks_threads st') -> t_tid th' <> t -> In th' (ks_threads (hist st0 pre))) /\
+  let st' := hist supp st0 (pre ++ [HLoad tid pinned sched f]) in
+  tids st' = tids (hist supp st0 pre) /\
+  (forall th', In th' (ks_threads st') -> t_tid th' <> t -> In th' (ks_threads (hist supp st0 pre))) /\
   (pinned = true -> t = tid).
-Proof. exact (no_tsync_untouched kload ksupported kload_spec). Qed.
+Proof. exact (fun supp => no_tsync_untouched kload supp kload_spec). Qed.
 Print Assumptions C10_no_tsync_untouched.
 
 (** The flag word reaches the kernel unmodified: LoadFilter makes at most one seccomp(2) call, with
     op = SECCOMP_SET_MODE_FILTER, flags = Filter.Flag and the compiled program with its 16-bit length. *)
-Theorem C10_flag_passthrough : forall st0 pre tid pinned sched f,
+Theorem C10_flag_passthrough : forall supp st0 pre tid pinned sched f,
   wf_filt f ->
-  let w := mk_world (hist st0 pre) tid pinned sched in
+  let w := mk_world (hist supp st0 pre) tid pinned sched in
   w_log (fst (kload w f)) = [] \/
   exists t p, f_prog f = Ok p /\
     w_log (fst (kload w f)) = [(t, SECCOMP_SET_MODE_FILTER, f_flag f, Some (fprog_len p, map encode p))].
-Proof. exact (flag_passthrough kload ksupported kload_spec). Qed.
+Proof. exact (fun supp => flag_passthrough kload supp kload_spec). Qed.
 Print Assumptions C10_flag_passthrough.
 
 (** Non-vacuity: three threads (one of them "blocked"), thread-sync load from an unpinned goroutine that the
@@ -71,14 +74,14 @@ Example C10_ex_covers :
   let h := [HBlock 101; HLoad 100 false (fun _ => 102) (flt true 3); HSpawn 101; HWake 101; HExit 100;
             HLoad 102 true (fun _ => 102) (flt false 0); HSpawn 103] in
   snd (kload (mk_world st3 100 false (fun _ => 102)) (flt true 3)) = LNil /\
-  stacks (hist st3 h) = [(101, [1]); (102, [2; 1]); (103, [1]); (104, [1])] /\
-  nnp_bits (hist st3 h) = [(101, true); (102, true); (103, true); (104, true)].
+  stacks (hist ref_supported st3 h) = [(101, [1]); (102, [2; 1]); (103, [1]); (104, [1])] /\
+  nnp_bits (hist ref_supported st3 h) = [(101, true); (102, true); (103, true); (104, true)].
 Proof. vm_compute. repeat split. Qed.
 
 (** without the flag only the thread that ran the call is changed *)
 Example C10_ex_untouched :
-  stacks (hist st3 [HLoad 100 true (fun _ => 100) (flt true 2)]) = [(100, [1]); (101, []); (102, [])] /\
-  nnp_bits (hist st3 [HLoad 100 true (fun _ => 100) (flt true 2)]) = [(100, true); (101, false); (102, false)] /\
+  stacks (hist ref_supported st3 [HLoad 100 true (fun _ => 100) (flt true 2)]) = [(100, [1]); (101, []); (102, [])] /\
+  nnp_bits (hist ref_supported st3 [HLoad 100 true (fun _ => 100) (flt true 2)]) = [(100, true); (101, false); (102, false)] /\
   w_log (fst (kload (mk_world st3 100 true (fun _ => 100)) (flt true 2))) =
     [(100, 1, 2, Some (2, map encode ok_prog))].
 Proof. vm_compute. repeat split. Qed.
